@@ -526,7 +526,7 @@ def run(ctx, only=None):
         p = fresh()
         todo.append(check_db(ctx, "raw-shapes", raw_shape_db(ctx.rng, p, exhaustive=True), p, None))
         quick = ctx.tier == "quick"
-        n_real, n_raw = (5, 30) if quick else (80, 1000)
+        n_real, n_raw = (5, 30) if quick else (70, 800)
         if ctx.search_boost > 1:            # after a proof/correspondence break: search harder, within the time budget
             n_real, n_raw = (int(n_real * 2), int(n_raw * 2)) if quick else (int(n_real * 1.5), int(n_raw * 1.5))
         for _ in range(n_real):
